@@ -29,7 +29,7 @@ ASSUMPTIONS = [
     "lines whose fragments the sampler cannot instantiate are skipped and counted (skipped_unsampled)",
 ]
 EXHAUSTIVE = {"quick": True, "thorough": True}
-FLOORS = {"quick": {"A_matches": 5000, "A_reverse": 2000, "B_rules": 150, "B_ignore_rules": 100, "B_ignore_case_rules": 100, "C_lines": 1500, "C_rows": 10000},
+FLOORS = {"quick": {"A_matches": 5000, "A_reverse": 2000, "B_rules": 150, "B_ignore_rules": 100, "B_ignore_case_rules": 100, "C_lines": 1500, "C_rows": 10000, "B_inline_flag_rules": 400},
           "thorough": {"A_matches": 5000, "A_reverse": 2000, "B_rules": 150, "B_ignore_rules": 100, "B_ignore_case_rules": 100, "C_lines": 1500, "C_rows": 10000}}
 PREFIXES = ["undo", "no", "delete", "remove", "-"]
 VENDOR_BY_PREFIX = {"undo": "huawei", "no": "cisco", "delete": "juniper", "remove": "routeros", "-": "pc"}
@@ -289,6 +289,38 @@ def run_B(spec, acc):
                         if got != e:
                             acc.violation("C07/B/ignore_case-flag-%s-rule" % which, "a row compiled with and without %ignore_case in one process: the flag of one leaks into the other",
                                           {"pattern": q, "row": r2, "vendor": vendor, "expected_key": e, "got_key": got})
+        # the inline flag `(?i)` (in front of the row, or inside a placeholder's regex) through every compiler: the rule recognises its rows in any letter case
+        iq = [q for q in ipats if "\t" not in q and "  " not in q][:40]
+        itexts = {("(?i)" + q): "(?i)" + q for q in iq}
+        itext = "\n".join(itexts)
+        try:
+            icomp5 = {
+                "patching": compile_patching_text(itext, vendor)["local"],
+                "acl": compile_acl_text(itext, vendor)["local"],
+                "ordering": compile_ordering_text(itext, vendor),
+                "deploying": compile_deploying_text(itext, vendor),
+                "implicit": implicit.compile_tree(syntax.parse_text(itext, {})),
+            }
+        except Exception as e:
+            acc.violation("C07/B/inline-flag-text-does-not-compile", "a rule text using the inline (?i) flag is refused by a compiler", {"vendor": vendor, "error": repr(e)[:200]})
+            icomp5 = {}
+        key_of = {"patching": "regexp", "acl": "direct_regexp", "ordering": "direct_regexp", "deploying": "regexp"}
+        for line, refpat in itexts.items():
+            for kind, d in icomp5.items():
+                rule = d.get(line)
+                if rule is None:
+                    acc.violation("C07/B/rule-lost", "a compiler lost a rule line of the shared text", {"pattern": line, "vendor": vendor, "compiler": kind})
+                    continue
+                rx = rule["regexp"] if kind == "implicit" else rule["attrs"][key_of[kind]]
+                acc.count("B_inline_flag_rules")
+                for r in probe_rows[:50]:
+                    for r2 in (r, r.upper(), r.title()):
+                        m = rx.match(r2)
+                        got = None if m is None else tuple(m.groups())
+                        e = R.match(refpat, r2)
+                        if got != e:
+                            acc.violation("C07/B/inline-ignore-case-flag/%s" % kind, "a rule written with the inline (?i) flag does not recognise its rows independently of letter case in the %s compiler" % kind,
+                                          {"pattern": line, "row": r2, "vendor": vendor, "expected_key": e, "got_key": got})
     acc.sample({"shared_text_lines": pats[:8], "probe_rows": probe_rows[:8]})
     run_B_nested(acc)
 
